@@ -6,7 +6,10 @@
     `diffRest`, `readMergeInto`, `readDiff`) is a copy (`fresh`), and every path expression evaluated
     there is `safe` (appends to the parameter only, `drop` on copies only);
   * every slice of the caller's diff that a renderer edits in place (index assignment,
-    `slices.Reverse`, assignment through a pointer) is a copy.
+    `slices.Reverse`, assignment through a pointer) is a copy;
+  * the values a diff ADDS are handed to `patch` (which builds them into the document and patches that in
+    place) as DEEP copies — `patchAll` of both libraries, and any other function that calls a `patch` method
+    directly (a `slices.Clone` does not count there); every container `cloneNode` returns is a copy (D29).
 
   Together with `PathHeap.run_faithful` (JdProofs/PathHeapProofs.lean: under this discipline Go's slice
   semantics agrees with the functional model, for every growth policy) this is what justifies treating
@@ -46,7 +49,8 @@ theorem table_covers_the_diff_code :
     (["v2/object.go", "v2/list.go", "v2/set.go", "lib/object.go", "lib/list.go", "lib/set.go",
       "v2/diff_read.go", "lib/diff_read.go"].all
         (fun f => Gen.pathSites.any (fun s => s.1.startsWith f && s.2.1 == .call))) = true ∧
-    (["v2/diff_write.go:Diff.RenderPatch", "v2/diff_write.go:Diff.RenderMerge", "lib/diff_write.go:Diff.RenderMerge"].all
+    (["v2/diff_write.go:Diff.RenderPatch", "v2/diff_write.go:Diff.RenderMerge", "lib/diff_write.go:Diff.RenderMerge",
+      "v2/patch_common.go:patchAll", "lib/patch_common.go:patchAll"].all
         (fun f => Gen.pathSites.any (fun s => s.1.startsWith f && s.2.1 == .write))) = true := by
   decide +kernel
 
